@@ -331,6 +331,7 @@ pub fn run(repo: &Path, out: &Path) -> Result<(), String> {
         "nondeterminism": uses_nondeterminism,
         "display_unprinted": crate::display::run(repo)?,
         "token_variants": token_variants(repo)?,
+        "ast_fields": crate::display::ast_fields(repo)?,
         "datatype_variants": enum_variants(repo, "src/ast/data_type.rs", "DataType")?,
     });
     write_if_changed(&out.join("inventory.json"), &serde_json::to_string_pretty(&cur).unwrap());
@@ -373,15 +374,16 @@ pub fn run(repo: &Path, out: &Path) -> Result<(), String> {
     };
     let obl = serde_json::json!({
         "C02": mk(&["panic_sites", "panic_sites_ast", "raw_access"]),
-        "C01": mk(&["display_unprinted"]),
+        "C01": mk(&["display_unprinted", "ast_fields"]),
+        "C11": mk(&["ast_fields"]),
         "C04": mk(&["token_variants"]),
         "C18": mk(&["datatype_variants"]),
-        "C05": mk(&["err_discard", "display_unprinted"]),
+        "C05": mk(&["err_discard", "display_unprinted", "ast_fields"]),
         "C07": mk(&["raw_access", "no_skip_callers", "pipeline_bodies"]),
         "C08": mk(&["text_compare", "make_word_uses", "word_value_tests"]),
         "C10": mk(&["location_literals", "twl_literals", "nondeterminism", "raw_access"]),
         "C12": mk(&["err_discard"]),
-        "C13": mk(&["comma_loops"]),
+        "C13": mk(&["comma_loops", "ast_fields"]),
         "C14": mk(&["raw_access", "pipeline_bodies"]),
         "C15": mk(&["type_id_uses", "dialect_of_uses"]),
     });
